@@ -52,9 +52,9 @@ func configsA(quick bool) []*CfgA {
 	add("two-signals-i60-i120", func(c *CfgA) {
 		c.Vote = []sigSpec{{"A", 2}, {"B", 1}}
 		c.Lat = []int{2}
-		c.Menu = []string{"A", "Ahi"}
-		c.Menu2 = []string{"A", "UNAV"}
-		c.Horizon = 110
+		c.Menu = []string{"A", "Ahi", "MISS"}
+		c.Menu2 = []string{"A", "UNAV", "MISS"} // every subset of the requested ids gets an entry: both, either one, none
+		c.Horizon = 80
 	})
 	// feed-list change: A's interval shrinks from 120 to 60 and B enters at the update block of tick 48
 	add("revote-shrink-and-enter", func(c *CfgA) {
